@@ -1,11 +1,994 @@
 package main
 
-import "verifsim/job"
+import (
+	"encoding/json"
+	"fmt"
+	"os"
+	"strings"
 
-type history struct{ steps []job.Step }
+	corev1 "k8s.io/api/core/v1"
+	netv1 "k8s.io/api/networking/v1"
+	metav1 "k8s.io/apimachinery/pkg/apis/meta/v1"
+	"k8s.io/apimachinery/pkg/types"
+	"k8s.io/apimachinery/pkg/util/intstr"
+	apisv1a "sigs.k8s.io/network-policy-api/apis/v1alpha1"
 
-func genHistory(r *rng, n int) *history { return &history{} }
+	"verifsim/job"
+)
+
+// C15 — PolicyEngine answers depend on the current objects only.
+//
+// One live engine is driven through a seeded history of inserts, updates, deletes,
+// SetResources, ClearResources and queries over a deliberately tiny universe. At every
+// query the node also asks two fresh engines built from the reference model's current
+// objects (canonical and reverse fill order). Oracle: live == fresh == fresh-reversed,
+// and nothing panics.
+
+type history struct {
+	steps []job.Step
+	cache int
+}
 
 func (h *history) job(id string, seed uint64) *job.Job {
-	return &job.Job{ID: id, MapSeed: seed, Steps: h.steps}
+	return &job.Job{ID: id, MapSeed: seed, CacheSize: h.cache, Steps: h.steps}
+}
+
+func mustJSON(v interface{}) json.RawMessage {
+	b, err := json.Marshal(v)
+	if err != nil {
+		panic(err)
+	}
+	return b
+}
+
+var (
+	hNS     = []string{"ns0", "ns1", "ns2"}
+	hOwners = []string{"o0", "o1", "o2", ""}
+	hProtos = []string{"TCP", "UDP", "SCTP"}
+	hPorts  = []string{"80", "8080", "53", "443"}
+	hIPs    = []string{"10.0.0.1", "192.168.1.5", "172.16.5.9"}
+)
+
+func hLabels(r *rng, keys, vals []string) map[string]string {
+	m := map[string]string{}
+	for _, k := range keys {
+		if r.chance(2, 3) {
+			m[k] = pick(r, vals)
+		}
+	}
+	return m
+}
+
+func hSelector(r *rng, keys, vals []string) metav1.LabelSelector {
+	switch r.intn(5) {
+	case 0:
+		return metav1.LabelSelector{}
+	case 1:
+		return metav1.LabelSelector{MatchExpressions: []metav1.LabelSelectorRequirement{{Key: pick(r, keys), Operator: pick(r, []metav1.LabelSelectorOperator{metav1.LabelSelectorOpExists, metav1.LabelSelectorOpDoesNotExist})}}}
+	case 2:
+		return metav1.LabelSelector{MatchExpressions: []metav1.LabelSelectorRequirement{{Key: pick(r, keys), Operator: pick(r, []metav1.LabelSelectorOperator{metav1.LabelSelectorOpIn, metav1.LabelSelectorOpNotIn}), Values: []string{pick(r, vals)}}}}
+	default:
+		return metav1.LabelSelector{MatchLabels: map[string]string{pick(r, keys): pick(r, vals)}}
+	}
+}
+
+var (
+	podKeys = []string{"app", "tier"}
+	podVals = []string{"a", "b"}
+	nsKeys  = []string{"env", "team"}
+	nsVals  = []string{"x", "y"}
+)
+
+type hGen struct {
+	r *rng
+	// beliefs, used only to bias generation (the node's model is the authority)
+	pods    map[string]*corev1.Pod // "ns/name"
+	nps     map[string]*netv1.NetworkPolicy
+	anps    map[string]*apisv1a.AdminNetworkPolicy
+	nss     map[string]bool
+	banp    bool
+	prio    map[string]int32
+	ownerLb map[string]map[string]string // ns/owner -> labels shared by its pods
+	asked   []job.Step
+	steps   []job.Step
+	drift   bool
+	epoch   map[string]int // ns/owner -> port epoch (bumped by a re-port of the whole workload)
+	touched []string       // pods touched by the latest mutation: the next queries look there first
+	// swarm knobs of this history
+	nsN, podN int   // size of the universe
+	tcpOnly   bool  // queries and rules stick to TCP
+	named     int   // out of 3: how often a rule port is the named port
+	broad     bool  // selectors are mostly empty, so policies really select the pods
+	weights   []int // per-history mix of mutation kinds
+	owned     bool  // every pod has a controller (so every verdict is cacheable)
+	qports    []string
+}
+
+func (g *hGen) ns() string { return pick(g.r, hNS[:g.nsN]) }
+
+func (g *hGen) proto() string {
+	if g.tcpOnly {
+		return "TCP"
+	}
+	return pick(g.r, hProtos)
+}
+
+func (g *hGen) sel(keys, vals []string) metav1.LabelSelector {
+	if g.broad && g.r.chance(2, 3) {
+		return metav1.LabelSelector{}
+	}
+	return hSelector(g.r, keys, vals)
+}
+
+func (g *hGen) obj(kind string, v interface{}) job.Obj { return job.Obj{Kind: kind, JSON: mustJSON(v)} }
+
+func (g *hGen) add(op string, o ...job.Obj) {
+	g.steps = append(g.steps, job.Step{Kind: job.Op, Op: op, Objs: o})
+	for _, x := range o {
+		if x.Kind == "Pod" {
+			var p corev1.Pod
+			if json.Unmarshal(x.JSON, &p) == nil {
+				g.touched = append(g.touched, p.Namespace+"/"+p.Name)
+			}
+		}
+	}
+}
+
+func (g *hGen) mkNamespace(name string) *corev1.Namespace {
+	l := hLabels(g.r, nsKeys, nsVals)
+	l["kubernetes.io/metadata.name"] = name
+	return &corev1.Namespace{TypeMeta: metav1.TypeMeta{APIVersion: "v1", Kind: "Namespace"}, ObjectMeta: metav1.ObjectMeta{Name: name, Labels: l}}
+}
+
+func (g *hGen) mkPod(ns, name string) *corev1.Pod {
+	r := g.r
+	owner := pick(r, hOwners)
+	if g.owned {
+		owner = pick(r, hOwners[:3])
+	}
+	labels := hLabels(r, podKeys, podVals)
+	var ports []corev1.ContainerPort
+	if owner != "" {
+		k := ns + "/" + owner
+		if l, ok := g.ownerLb[k]; ok && !r.chance(1, 6) {
+			labels = l
+		} else {
+			g.ownerLb[k] = labels
+		}
+		// pods of one (owner, label set) have identical ports: derive them from the key
+		ports = ownerPorts(k, labels, g.epoch[k])
+		if g.drift && r.chance(1, 2) {
+			ports = []corev1.ContainerPort{{Name: "http", ContainerPort: pick(r, []int32{80, 8080, 443}), Protocol: corev1.ProtocolTCP}}
+		}
+	} else {
+		if r.chance(1, 2) {
+			ports = append(ports, corev1.ContainerPort{Name: "http", ContainerPort: pick(r, []int32{80, 8080}), Protocol: corev1.ProtocolTCP})
+		}
+	}
+	p := &corev1.Pod{TypeMeta: metav1.TypeMeta{APIVersion: "v1", Kind: "Pod"}, ObjectMeta: metav1.ObjectMeta{Name: name, Namespace: ns, Labels: labels},
+		Spec:   corev1.PodSpec{Containers: []corev1.Container{{Name: "c", Image: "i", Ports: ports}}},
+		Status: corev1.PodStatus{HostIP: "192.168.49." + fmt.Sprint(2+r.intn(2)), PodIPs: []corev1.PodIP{{IP: "10.244.0." + fmt.Sprint(2+r.intn(200))}}}}
+	if owner != "" {
+		t := true
+		p.OwnerReferences = []metav1.OwnerReference{{APIVersion: "apps/v1", Kind: "ReplicaSet", Name: owner, UID: types.UID("u" + owner), Controller: &t}}
+	}
+	return p
+}
+
+// ownerPorts: pods of one (owner, label set, epoch) have identical container ports.
+func ownerPorts(ownerKey string, labels map[string]string, epoch int) []corev1.ContainerPort {
+	pr := sub(0x15, ownerKey, fmt.Sprint(labels), epoch)
+	var ports []corev1.ContainerPort
+	if pr.chance(2, 3) {
+		ports = append(ports, corev1.ContainerPort{Name: "http", ContainerPort: pick(pr, []int32{80, 8080, 443}), Protocol: corev1.ProtocolTCP})
+	}
+	if pr.chance(1, 3) {
+		ports = append(ports, corev1.ContainerPort{Name: "dns", ContainerPort: 53, Protocol: corev1.ProtocolUDP})
+	}
+	return ports
+}
+
+func (g *hGen) mkNetpol(ns, name string) *netv1.NetworkPolicy {
+	r := g.r
+	np := &netv1.NetworkPolicy{TypeMeta: metav1.TypeMeta{APIVersion: "networking.k8s.io/v1", Kind: "NetworkPolicy"}, ObjectMeta: metav1.ObjectMeta{Name: name, Namespace: ns}}
+	np.Spec.PodSelector = g.sel(podKeys, podVals)
+	peer := func() []netv1.NetworkPolicyPeer {
+		var ps []netv1.NetworkPolicyPeer
+		for i, n := 0, r.between(0, 2); i < n; i++ {
+			switch r.intn(4) {
+			case 0:
+				ps = append(ps, netv1.NetworkPolicyPeer{IPBlock: &netv1.IPBlock{CIDR: pick(r, []string{"10.0.0.0/8", "192.168.0.0/16", "0.0.0.0/0"})}})
+			case 1:
+				s := g.sel(nsKeys, nsVals)
+				ps = append(ps, netv1.NetworkPolicyPeer{NamespaceSelector: &s})
+			case 2:
+				s, s2 := g.sel(nsKeys, nsVals), g.sel(podKeys, podVals)
+				ps = append(ps, netv1.NetworkPolicyPeer{NamespaceSelector: &s, PodSelector: &s2})
+			default:
+				s := g.sel(podKeys, podVals)
+				ps = append(ps, netv1.NetworkPolicyPeer{PodSelector: &s})
+			}
+		}
+		return ps
+	}
+	ports := func(named bool) []netv1.NetworkPolicyPort {
+		if r.chance(1, 3) {
+			return nil
+		}
+		pr := corev1.Protocol(g.proto())
+		switch k := r.intn(3); {
+		case named && r.intn(3) < g.named:
+			v := intstr.FromString("http")
+			tcp := corev1.ProtocolTCP
+			return []netv1.NetworkPolicyPort{{Protocol: &tcp, Port: &v}}
+		case k == 1:
+			v := intstr.FromInt32(80)
+			e := int32(443)
+			return []netv1.NetworkPolicyPort{{Protocol: &pr, Port: &v, EndPort: &e}}
+		default:
+			v := intstr.FromInt32(pick(r, []int32{80, 8080, 53, 443}))
+			return []netv1.NetworkPolicyPort{{Protocol: &pr, Port: &v}}
+		}
+	}
+	for i, n := 0, r.between(0, 2); i < n; i++ {
+		np.Spec.Ingress = append(np.Spec.Ingress, netv1.NetworkPolicyIngressRule{From: peer(), Ports: ports(true)})
+	}
+	for i, n := 0, r.between(0, 2); i < n; i++ {
+		np.Spec.Egress = append(np.Spec.Egress, netv1.NetworkPolicyEgressRule{To: peer(), Ports: ports(false)})
+	}
+	switch r.intn(4) {
+	case 1:
+		np.Spec.PolicyTypes = []netv1.PolicyType{netv1.PolicyTypeIngress}
+	case 2:
+		np.Spec.PolicyTypes = []netv1.PolicyType{netv1.PolicyTypeEgress}
+	case 3:
+		np.Spec.PolicyTypes = []netv1.PolicyType{netv1.PolicyTypeIngress, netv1.PolicyTypeEgress}
+	}
+	return np
+}
+
+func (g *hGen) subject() apisv1a.AdminNetworkPolicySubject {
+	r := g.r
+	if r.chance(1, 2) {
+		s := hSelector(r, nsKeys, nsVals)
+		return apisv1a.AdminNetworkPolicySubject{Namespaces: &s}
+	}
+	return apisv1a.AdminNetworkPolicySubject{Pods: &apisv1a.NamespacedPod{NamespaceSelector: hSelector(r, nsKeys, nsVals), PodSelector: hSelector(r, podKeys, podVals)}}
+}
+
+func (g *hGen) anpPorts() *[]apisv1a.AdminNetworkPolicyPort {
+	r := g.r
+	if r.chance(1, 2) {
+		return nil
+	}
+	if r.chance(1, 2) {
+		return &[]apisv1a.AdminNetworkPolicyPort{{PortRange: &apisv1a.PortRange{Protocol: corev1.Protocol(pick(r, hProtos)), Start: 53, End: 443}}}
+	}
+	return &[]apisv1a.AdminNetworkPolicyPort{{PortNumber: &apisv1a.Port{Protocol: corev1.Protocol(pick(r, hProtos)), Port: pick(r, []int32{80, 8080, 53, 443})}}}
+}
+
+func (g *hGen) mkANP(name string) *apisv1a.AdminNetworkPolicy {
+	r := g.r
+	a := &apisv1a.AdminNetworkPolicy{TypeMeta: metav1.TypeMeta{APIVersion: "policy.networking.k8s.io/v1alpha1", Kind: "AdminNetworkPolicy"}, ObjectMeta: metav1.ObjectMeta{Name: name}}
+	a.Spec.Priority = g.prio[name]
+	a.Spec.Subject = g.subject()
+	ni, ne := r.between(0, 2), r.between(0, 2)
+	if ni+ne == 0 {
+		ni = 1
+	}
+	for i := 0; i < ni; i++ {
+		s := g.subject()
+		a.Spec.Ingress = append(a.Spec.Ingress, apisv1a.AdminNetworkPolicyIngressRule{Action: pick(r, anpActions), From: []apisv1a.AdminNetworkPolicyIngressPeer{{Namespaces: s.Namespaces, Pods: s.Pods}}, Ports: g.anpPorts()})
+	}
+	for i := 0; i < ne; i++ {
+		s := g.subject()
+		a.Spec.Egress = append(a.Spec.Egress, apisv1a.AdminNetworkPolicyEgressRule{Action: pick(r, anpActions), To: []apisv1a.AdminNetworkPolicyEgressPeer{{Namespaces: s.Namespaces, Pods: s.Pods}}, Ports: g.anpPorts()})
+	}
+	return a
+}
+
+func (g *hGen) mkBANP(name string) *apisv1a.BaselineAdminNetworkPolicy {
+	r := g.r
+	b := &apisv1a.BaselineAdminNetworkPolicy{TypeMeta: metav1.TypeMeta{APIVersion: "policy.networking.k8s.io/v1alpha1", Kind: "BaselineAdminNetworkPolicy"}, ObjectMeta: metav1.ObjectMeta{Name: name}}
+	b.Spec.Subject = g.subject()
+	acts := []apisv1a.BaselineAdminNetworkPolicyRuleAction{apisv1a.BaselineAdminNetworkPolicyRuleActionAllow, apisv1a.BaselineAdminNetworkPolicyRuleActionDeny}
+	s := g.subject()
+	if r.chance(1, 2) {
+		b.Spec.Ingress = []apisv1a.BaselineAdminNetworkPolicyIngressRule{{Action: pick(r, acts), From: []apisv1a.AdminNetworkPolicyIngressPeer{{Namespaces: s.Namespaces, Pods: s.Pods}}, Ports: g.anpPorts()}}
+	}
+	s = g.subject()
+	if len(b.Spec.Ingress) == 0 || r.chance(1, 2) {
+		b.Spec.Egress = []apisv1a.BaselineAdminNetworkPolicyEgressRule{{Action: pick(r, acts), To: []apisv1a.AdminNetworkPolicyEgressPeer{{Namespaces: s.Namespaces, Pods: s.Pods}}, Ports: g.anpPorts()}}
+	}
+	return b
+}
+
+func (g *hGen) podName() string { return fmt.Sprintf("%s/p%d", g.ns(), g.r.intn(g.podN)) }
+
+func (g *hGen) peerStr() string {
+	r := g.r
+	if r.chance(1, 8) {
+		return pick(r, hIPs)
+	}
+	if len(g.pods) > 0 && r.chance(7, 8) {
+		return pick(r, sortedKeys(g.pods))
+	}
+	return g.podName()
+}
+
+func (g *hGen) newQuery() job.Step {
+	q := job.Step{Kind: job.Query, Src: g.peerStr(), Dst: g.peerStr(), Proto: g.proto(), Port: pick(g.r, g.qports)}
+	if len(g.touched) > 0 && g.r.chance(1, 2) {
+		if g.r.chance(2, 3) {
+			q.Dst = pick(g.r, g.touched)
+		} else {
+			q.Src = pick(g.r, g.touched)
+		}
+		if g.r.chance(1, 2) {
+			q.Proto = "TCP"
+		}
+	}
+	return q
+}
+
+func (g *hGen) queries(n int) {
+	// queries already asked about the pods the latest mutation touched
+	var near []job.Step
+	for _, q := range g.asked {
+		for _, t := range g.touched {
+			if q.Src == t || q.Dst == t {
+				near = append(near, q)
+				break
+			}
+		}
+	}
+	for i := 0; i < n; i++ {
+		var q job.Step
+		if len(near) > 0 && g.r.chance(1, 2) {
+			q = pick(g.r, near)
+		} else if len(g.asked) > 0 && g.r.chance(1, 2) {
+			q = pick(g.r, g.asked) // re-ask: a stale verdict gets its chance to be served
+		} else {
+			q = g.newQuery()
+			g.asked = append(g.asked, q)
+		}
+		g.steps = append(g.steps, q)
+	}
+}
+
+func splitKey(k string) (string, string) {
+	i := strings.Index(k, "/")
+	return k[:i], k[i+1:]
+}
+
+func (g *hGen) mutate() {
+	r := g.r
+	w := []int{
+		10, // 0 insert/update pod
+		5,  // 1 delete pod
+		6,  // 2 insert/relabel namespace
+		2,  // 3 delete namespace
+		8,  // 4 insert netpol
+		5,  // 5 delete netpol
+		7,  // 6 insert ANP
+		5,  // 7 delete ANP
+		4,  // 8 insert BANP
+		3,  // 9 delete BANP
+		2,  // 10 setResources
+		1,  // 11 clear
+		2,  // 12 insert that must fail
+		4,  // 13 re-port a whole workload (same names, labels and owner; other container ports)
+	}
+	delOp := func() string { return pick(r, []string{"delete", "delete", "deleteCopy"}) }
+	if g.weights == nil {
+		g.weights = w
+	}
+	switch r.weighted(g.weights) {
+	case 0:
+		k := g.podName()
+		if len(g.pods) > 0 && r.chance(1, 2) {
+			k = pick(r, sortedKeys(g.pods)) // update
+		}
+		ns, name := splitKey(k)
+		p := g.mkPod(ns, name)
+		g.pods[k] = p
+		g.add("insert", g.obj("Pod", p))
+	case 1:
+		k := g.podName() // probably absent
+		if len(g.pods) > 0 && r.chance(3, 4) {
+			k = pick(r, sortedKeys(g.pods))
+		}
+		ns, name := splitKey(k)
+		p, ok := g.pods[k]
+		if !ok {
+			p = g.mkPod(ns, name)
+		}
+		delete(g.pods, k)
+		g.add(delOp(), g.obj("Pod", p))
+	case 2:
+		n := g.ns()
+		g.nss[n] = true
+		g.add("insert", g.obj("Namespace", g.mkNamespace(n)))
+	case 3:
+		n := g.ns()
+		delete(g.nss, n)
+		g.add(delOp(), g.obj("Namespace", g.mkNamespace(n)))
+	case 4:
+		k := fmt.Sprintf("%s/np%d", g.ns(), r.intn(4))
+		ns, name := splitKey(k)
+		np := g.mkNetpol(ns, name)
+		if _, dup := g.nps[k]; !dup {
+			g.nps[k] = np
+		}
+		g.add("insert", g.obj("NetworkPolicy", np))
+	case 5:
+		k := fmt.Sprintf("%s/np%d", g.ns(), r.intn(4))
+		if len(g.nps) > 0 && r.chance(3, 4) {
+			k = pick(r, sortedKeys(g.nps))
+		}
+		ns, name := splitKey(k)
+		np, ok := g.nps[k]
+		if !ok {
+			np = g.mkNetpol(ns, name)
+		}
+		delete(g.nps, k)
+		g.add(delOp(), g.obj("NetworkPolicy", np))
+	case 6:
+		name := fmt.Sprintf("anp%d", r.intn(5))
+		a := g.mkANP(name)
+		if _, dup := g.anps[name]; !dup {
+			g.anps[name] = a
+		}
+		g.add("insert", g.obj("AdminNetworkPolicy", a))
+	case 7:
+		name := fmt.Sprintf("anp%d", r.intn(5))
+		if len(g.anps) > 0 && r.chance(3, 4) {
+			name = pick(r, sortedKeys(g.anps))
+		}
+		a, ok := g.anps[name]
+		if !ok {
+			a = g.mkANP(name)
+		}
+		delete(g.anps, name)
+		g.add(delOp(), g.obj("AdminNetworkPolicy", a))
+	case 8:
+		g.banp = true
+		g.add("insert", g.obj("BaselineAdminNetworkPolicy", g.mkBANP("default")))
+	case 9:
+		name := "default"
+		if r.chance(1, 4) {
+			name = "other"
+		} else {
+			g.banp = false
+		}
+		g.add(delOp(), g.obj("BaselineAdminNetworkPolicy", g.mkBANP(name)))
+	case 10:
+		// only arguments that cannot fail: fresh policy names, valid pods
+		var objs []job.Obj
+		for i, n := 0, r.between(1, 2); i < n; i++ {
+			k := g.podName()
+			ns, name := splitKey(k)
+			p := g.mkPod(ns, name)
+			g.pods[k] = p
+			objs = append(objs, g.obj("Pod", p))
+		}
+		if r.chance(1, 2) {
+			n := g.ns()
+			g.nss[n] = true
+			objs = append(objs, g.obj("Namespace", g.mkNamespace(n)))
+		}
+		if r.chance(1, 2) {
+			k := fmt.Sprintf("%s/sr%d", g.ns(), len(g.steps))
+			ns, name := splitKey(k)
+			np := g.mkNetpol(ns, name)
+			g.nps[k] = np
+			objs = append(objs, g.obj("NetworkPolicy", np))
+		}
+		g.add("setResources", objs...)
+	case 11:
+		g.pods, g.nps, g.anps, g.nss, g.banp = map[string]*corev1.Pod{}, map[string]*netv1.NetworkPolicy{}, map[string]*apisv1a.AdminNetworkPolicy{}, map[string]bool{}, false
+		g.add("clear")
+	case 13:
+		// all pods of one owner are re-inserted back to back with the next port epoch (a rollout);
+		// no query is generated in between, so the workload is never observed half-way
+		var owned []string
+		for _, k := range sortedKeys(g.pods) {
+			if len(g.pods[k].OwnerReferences) > 0 {
+				owned = append(owned, k)
+			}
+		}
+		if len(owned) == 0 {
+			return
+		}
+		first := g.pods[pick(r, owned)]
+		ok := first.Namespace + "/" + first.OwnerReferences[0].Name
+		g.epoch[ok]++
+		for _, k := range owned {
+			p := g.pods[k]
+			if p.Namespace+"/"+p.OwnerReferences[0].Name != ok || fmt.Sprint(p.Labels) != fmt.Sprint(first.Labels) {
+				continue
+			}
+			np := p.DeepCopy()
+			np.Spec.Containers[0].Ports = ownerPorts(ok, p.Labels, g.epoch[ok])
+			g.pods[k] = np
+			g.add("insert", g.obj("Pod", np))
+		}
+	default:
+		switch r.intn(3) {
+		case 0: // BANP with a name other than default
+			g.add("insert", g.obj("BaselineAdminNetworkPolicy", g.mkBANP("other")))
+		case 1: // pod that was never scheduled
+			ns, name := splitKey(g.podName())
+			p := g.mkPod(ns, name)
+			p.Status = corev1.PodStatus{}
+			g.add("insert", g.obj("Pod", p))
+		default: // duplicate policy name
+			if len(g.nps) > 0 {
+				k := pick(r, sortedKeys(g.nps))
+				ns, name := splitKey(k)
+				g.add("insert", g.obj("NetworkPolicy", g.mkNetpol(ns, name)))
+			} else {
+				g.add("insert", g.obj("BaselineAdminNetworkPolicy", g.mkBANP("other")))
+			}
+		}
+	}
+}
+
+// genHistory draws a history of about n steps.
+func genHistory(r *rng, n int) *history {
+	g := &hGen{r: r, pods: map[string]*corev1.Pod{}, nps: map[string]*netv1.NetworkPolicy{}, anps: map[string]*apisv1a.AdminNetworkPolicy{},
+		nss: map[string]bool{}, prio: map[string]int32{}, ownerLb: map[string]map[string]string{}, epoch: map[string]int{}}
+	g.drift = r.chance(1, 12) || os.Getenv("VERIF_C15_DRIFT") != ""
+	g.nsN, g.podN = r.between(1, 3), r.between(2, 5)
+	g.tcpOnly = r.chance(1, 3)
+	g.named = r.between(0, 3)
+	g.broad = r.chance(1, 2)
+	base := []int{10, 5, 6, 2, 8, 5, 7, 5, 4, 3, 2, 1, 2, 4}
+	for _, b := range base {
+		g.weights = append(g.weights, b*pick(r, []int{0, 1, 1, 3}))
+	}
+	g.weights[0] += 2 // a history always has pods
+	g.weights[2]++    // and namespaces
+	g.qports = hPorts
+	if r.chance(1, 5) {
+		// rollout profile: one namespace, few controlled pods, policies with named ports that really
+		// select them, and whole-workload re-ports as the dominant mutation
+		g.nsN, g.podN, g.tcpOnly, g.named, g.broad, g.owned = 1, 3, true, 3, true, true
+		g.qports = []string{"80", "8080", "443"}
+		g.weights = []int{6, 1, 1, 0, 8, 2, 0, 0, 0, 0, 1, 0, 0, 10}
+	}
+	pr := r.perm(1001)
+	for i := 0; i < 5; i++ {
+		g.prio[fmt.Sprintf("anp%d", i)] = int32(pr[i])
+	}
+	// most histories start from a populated world, some from nothing
+	if r.chance(5, 6) {
+		for _, n := range hNS[:g.nsN] {
+			if r.chance(5, 6) {
+				g.nss[n] = true
+				g.add("insert", g.obj("Namespace", g.mkNamespace(n)))
+			}
+		}
+		for i, k := 0, r.between(2, 5); i < k; i++ {
+			key := g.podName()
+			ns, name := splitKey(key)
+			p := g.mkPod(ns, name)
+			g.pods[key] = p
+			g.add("insert", g.obj("Pod", p))
+		}
+	}
+	g.queries(g.r.between(2, 6))
+	for len(g.steps) < n {
+		g.touched = nil
+		g.mutate()
+		g.queries(g.r.between(1, 4))
+	}
+	h := &history{steps: g.steps, cache: 0}
+	if r.chance(1, 2) {
+		h.cache = 10
+	}
+	return h
+}
+
+// ---- oracle ---------------------------------------------------------------------------
+
+type c15Finding struct {
+	class string // panic | stale | order | model
+	step  int
+	desc  string
+}
+
+func answer(a *bool, e string) string {
+	if a == nil {
+		return "error(" + e + ")"
+	}
+	return fmt.Sprint(*a)
+}
+
+func same(a *bool, ae string, b *bool, be string) bool {
+	if (a == nil) != (b == nil) {
+		return false
+	}
+	if a == nil {
+		return true // both failed: error texts are not compared
+	}
+	return *a == *b
+}
+
+// c15Oracle evaluates a history trace. It returns the first finding, or nil.
+func c15Oracle(steps []job.Step, t *job.Trace) *c15Finding {
+	pods := map[string]podInfo{}
+	for i := range t.Events {
+		e := &t.Events[i]
+		st := &steps[e.Step]
+		if st.Kind == job.Op && e.OK && e.Panic == nil {
+			trackPods(pods, st)
+		}
+		if e.Panic != nil {
+			where := "?"
+			if len(e.Panic.Frames) > 0 {
+				where = e.Panic.Frames[0]
+			}
+			return &c15Finding{"panic", i, fmt.Sprintf("%s panicked: %s at %s", opDesc(st), e.Panic.Value, where)}
+		}
+		if st.Kind != job.Query {
+			continue
+		}
+		if strings.HasPrefix(e.FreshErr, "fresh insert") || strings.HasPrefix(e.FreshRErr, "fresh insert") {
+			return &c15Finding{"model", i, "a fresh engine refuses an object the model holds: " + e.FreshErr + e.FreshRErr}
+		}
+		if !same(e.Fresh, e.FreshErr, e.FreshR, e.FreshRErr) {
+			return &c15Finding{"order", i, fmt.Sprintf("%s: fresh engine filled in canonical order says %s, filled in reverse order says %s",
+				opDesc(st), answer(e.Fresh, e.FreshErr), answer(e.FreshR, e.FreshRErr))}
+		}
+		if conflated(pods, st.Src) || conflated(pods, st.Dst) {
+			// the verdict cache is keyed by (owner, label set) by design; a workload observed while its
+			// pods disagree on container ports is outside what the cache promises, and is not compared
+			continue
+		}
+		if !same(e.Allowed, e.QErr, e.Fresh, e.FreshErr) {
+			return &c15Finding{"stale", i, fmt.Sprintf("%s: live engine says %s, a fresh engine with the same objects says %s",
+				opDesc(st), answer(e.Allowed, e.QErr), answer(e.Fresh, e.FreshErr))}
+		}
+	}
+	return nil
+}
+
+type podInfo struct{ group, ports string }
+
+// trackPods mirrors, for pods only, what the node's reference model does with a successful op.
+func trackPods(pods map[string]podInfo, st *job.Step) {
+	if st.Op == "clear" {
+		for k := range pods {
+			delete(pods, k)
+		}
+		return
+	}
+	for _, o := range st.Objs {
+		if o.Kind != "Pod" {
+			continue
+		}
+		var p corev1.Pod
+		if json.Unmarshal(o.JSON, &p) != nil {
+			continue
+		}
+		key := p.Namespace + "/" + p.Name
+		if st.Op == "delete" || st.Op == "deleteCopy" {
+			delete(pods, key)
+			continue
+		}
+		owner := ""
+		for _, or := range p.OwnerReferences {
+			if or.Controller != nil && *or.Controller {
+				owner = or.Name
+				break
+			}
+		}
+		if owner == "" {
+			delete(pods, key) // ownerless pods are never cached
+			continue
+		}
+		var ports []corev1.ContainerPort
+		for _, c := range p.Spec.Containers {
+			ports = append(ports, c.Ports...)
+		}
+		pods[key] = podInfo{group: fmt.Sprintf("%s/%s/%v", p.Namespace, owner, p.Labels), ports: fmt.Sprint(ports)}
+	}
+}
+
+// conflated: the named pod belongs to an (owner, label set) group whose pods differ in ports.
+func conflated(pods map[string]podInfo, name string) bool {
+	me, ok := pods[name]
+	if !ok {
+		return false
+	}
+	for _, k := range sortedKeys(pods) {
+		if o := pods[k]; o.group == me.group && o.ports != me.ports {
+			return true
+		}
+	}
+	return false
+}
+
+func opDesc(s *job.Step) string {
+	if s.Kind == job.Query {
+		return fmt.Sprintf("CheckIfAllowed(%s, %s, %s, %s)", s.Src, s.Dst, s.Proto, s.Port)
+	}
+	k := ""
+	if len(s.Objs) > 0 {
+		k = s.Objs[0].Kind
+	}
+	return fmt.Sprintf("%s(%s)", s.Op, k)
+}
+
+// lastMutation: kind of the last mutating op before step i (for the signature).
+func lastMutation(steps []job.Step, i int) string {
+	for k := i; k >= 0; k-- {
+		if steps[k].Kind == job.Op {
+			return opDesc(&steps[k])
+		}
+	}
+	return "none"
+}
+
+type c15Checker struct{}
+
+func (c15Checker) recheck(r *Replay, res []*Result) Verdict {
+	if len(res) != 1 || r.Runs[0].Job == nil {
+		return Verdict{Infra: "C15 replay needs one history run"}
+	}
+	x := res[0]
+	if x.Trace == nil {
+		return Verdict{Violated: true, Desc: fmt.Sprintf("the process died (exit %d): %s", x.Exit, tail(x.Stderr, 300)), Digests: []string{fmt.Sprint("exit=", x.Exit)}}
+	}
+	f := c15Oracle(r.Runs[0].Job.Steps, x.Trace)
+	if f == nil {
+		return Verdict{Desc: "every query agrees with the fresh engines", Digests: []string{"clean"}}
+	}
+	if f.class == "model" {
+		return Verdict{Infra: f.desc}
+	}
+	want := r.Detail["class"]
+	if want != "" && want != f.class {
+		return Verdict{Desc: "another class now: " + f.class + ": " + f.desc, Digests: []string{f.class}}
+	}
+	return Verdict{Violated: true, Desc: f.desc, Digests: []string{f.class + "@" + fmt.Sprint(f.step)}}
+}
+
+func init() {
+	checkers["C15"] = c15Checker{}
+	runners["C15"] = runC15
+}
+
+func runC15(tier string, seed uint64) int {
+	rp := newReport("C15", tier, seed)
+	n := 3000
+	if tier == "thorough" {
+		n = 150000
+	}
+	if v := envInt("VERIF_C15_N"); v > 0 {
+		n = v
+	}
+	type out struct {
+		f       *c15Finding
+		steps   []job.Step
+		job     *job.Job
+		infra   string
+		queries int
+		hitsMut int // queries served from the cache after at least one mutation
+		hits    int
+		evict   bool
+		failed  int
+		bigrams map[string]bool
+		trans   map[string]bool
+		died    string
+	}
+	outs := make([]out, n)
+	parallel(n, workers, func(i int) {
+		r := sub(seed, "C15", "hist", i)
+		h := genHistory(r, r.between(10, 80))
+		j := h.job(fmt.Sprintf("hist:%d", i), r.u64()>>1)
+		o := &outs[i]
+		o.steps, o.job = h.steps, j
+		res := execute(&Run{Job: j})
+		if res.Infra != "" {
+			o.infra = res.Infra
+			return
+		}
+		if res.Trace == nil || res.Trace.Fail != "" {
+			o.died = fmt.Sprintf("exit %d: %s", res.Exit, tail(res.Stderr, 300))
+			return
+		}
+		o.f = c15Oracle(h.steps, res.Trace)
+		o.bigrams, o.trans = map[string]bool{}, map[string]bool{}
+		prevHits, prevKeys, prevKind := 0, 0, "start"
+		mutated := false
+		for k := range res.Trace.Events {
+			e := &res.Trace.Events[k]
+			st := &h.steps[e.Step]
+			kind := st.Kind
+			if st.Kind == job.Op {
+				kind = st.Op
+				if len(st.Objs) > 0 {
+					kind += ":" + st.Objs[0].Kind
+				}
+				if !e.OK {
+					o.failed++
+					kind += "!"
+				}
+				mutated = true
+			} else {
+				o.queries++
+				if e.CacheHits > prevHits {
+					o.hits++
+					if mutated {
+						o.hitsMut++
+					}
+				}
+				if e.CacheKeys < prevKeys || (j.CacheSize == 10 && e.CacheKeys == 10 && prevKeys == 10 && e.CacheHits == prevHits) {
+					o.evict = true
+				}
+			}
+			if e.CacheKeys < prevKeys {
+				o.trans[kind+":shrink"] = true
+			} else if e.CacheKeys > prevKeys {
+				o.trans[kind+":grow"] = true
+			}
+			o.bigrams[prevKind+">"+kind] = true
+			prevKind, prevHits, prevKeys = kind, e.CacheHits, e.CacheKeys
+		}
+	})
+	var queries, hits, hitsMut, evicts, failed, nontrivial int
+	bigrams, trans := map[string]bool{}, map[string]bool{}
+	var bad []int
+	for i := range outs {
+		o := &outs[i]
+		if o.infra != "" {
+			infra("C15: %s", o.infra)
+		}
+		if o.died != "" {
+			o.f = &c15Finding{"panic", -1, "the process died: " + o.died}
+		}
+		queries += o.queries
+		hits += o.hits
+		hitsMut += o.hitsMut
+		failed += o.failed
+		if o.evict {
+			evicts++
+		}
+		if o.hitsMut > 0 {
+			nontrivial++
+		}
+		for k := range o.bigrams {
+			bigrams[k] = true
+		}
+		for k := range o.trans {
+			trans[k] = true
+		}
+		if o.f != nil {
+			bad = append(bad, i)
+		}
+	}
+	reported := 0
+	for _, i := range bad {
+		o := &outs[i]
+		if o.f.class == "model" {
+			infra("C15: history %d: %s", i, o.f.desc)
+		}
+		if reported >= 4 {
+			fmt.Printf("note: %d further failing histories not minimised\n", len(bad)-reported)
+			break
+		}
+		rep := c15Minimise(o.job, o.f, seed, i)
+		if rep == nil {
+			infra("C15: history %d (%s) did not reproduce during minimisation", i, o.f.desc)
+		}
+		if ok, why := confirm(rep, 3); !ok {
+			infra("C15: witness for history %d does not replay: %s", i, why)
+		}
+		if rp.violation(rep) {
+			reported++
+		}
+	}
+	var samples []interface{}
+	for i := 0; i < n && len(samples) < 2; i += 1 + n/2 {
+		var ops []string
+		for k := range outs[i].steps {
+			if k >= 25 {
+				ops = append(ops, "...")
+				break
+			}
+			ops = append(ops, opDesc(&outs[i].steps[k]))
+		}
+		samples = append(samples, map[string]interface{}{"history": i, "steps": len(outs[i].steps), "cache_size": outs[i].job.CacheSize, "ops": ops})
+	}
+	ev := &Evidence{PropertyID: "C15", Tier: tier, Seed: int64(seed), Level: "exploration", WallS: sinceS(rp.start), Violations: rp.violations,
+		Coverage: map[string]interface{}{
+			"evaluations":         n,
+			"distinct_nontrivial": nontrivial,
+			"rule": "one evaluation = one seeded history (10-80 API calls on one live PolicyEngine, one OS process, one map-order schedule); every query is also put to two fresh engines built from the reference model; " +
+				"a history is non-trivial when at least one query was answered from the verdict cache after a mutating call (histories are distinct by seed-derived content)",
+			"samples":                       samples,
+			"queries_checked":               queries,
+			"cache_hits":                    hits,
+			"cache_hits_after_a_mutation":   hitsMut,
+			"histories_with_eviction":       evicts,
+			"operations_rejected_by_engine": failed,
+			"distinct_op_bigrams":           len(bigrams),
+			"distinct_cache_transitions":    len(trans),
+			"failing_histories":             len(bad),
+			"known_findings_observed":       len(rp.known),
+			"runs_per_hour":                 perHour(n, rp.start),
+			"fault_kinds":                   "delete of absent object, delete by copy, update in place, out-of-priority-order ANP insert, rejected inserts (duplicate name, second/misnamed BANP, unscheduled pod), ClearResources, cache size 10 (eviction)",
+			"simulated_time":                "none",
+			"real_components":               "eval.PolicyEngine and everything below it; the oracle's fresh engines are the same real code",
+			"stubbed_components":            "none; reference model = dictionary (kind, namespace, name) -> object, no policy semantics",
+		},
+		Assumptions: []string{
+			"object kinds limited to those the update API can delete: Namespace, Pod, NetworkPolicy, AdminNetworkPolicy, BaselineAdminNetworkPolicy",
+			"ANPs present at one time have distinct priorities; SetResources is only given arguments that cannot fail",
+			"a misreading of policy semantics shared by the live and the fresh engine is invisible here by design",
+		}}
+	writeEvidence(ev)
+	fmt.Printf("C15 %s seed=%d: %d histories, %d queries checked, %d cache hits after a mutation, %d failing histories, %d violations, %d known findings, %.1fs\n",
+		tier, seed, n, queries, hitsMut, len(bad), rp.violations, len(rp.known), sinceS(rp.start))
+	return rp.exitCode()
+}
+
+func c15Minimise(j *job.Job, f *c15Finding, seed uint64, idx int) *Replay {
+	steps := j.Steps
+	test := func(keep []int) bool {
+		sub := make([]job.Step, 0, len(keep))
+		for _, i := range keep {
+			sub = append(sub, steps[i])
+		}
+		jj := *j
+		jj.Steps = sub
+		res := execute(&Run{Job: &jj})
+		if res.Trace == nil {
+			return f.class == "panic"
+		}
+		g := c15Oracle(sub, res.Trace)
+		return g != nil && g.class == f.class
+	}
+	all := make([]int, len(steps))
+	for i := range all {
+		all[i] = i
+	}
+	if !test(all) {
+		return nil
+	}
+	keep := ddmin(len(steps), test)
+	sub := make([]job.Step, 0, len(keep))
+	for _, i := range keep {
+		sub = append(sub, steps[i])
+	}
+	jj := *j
+	jj.Steps = sub
+	jj.ID = j.ID + "/min"
+	rep := &Replay{Property: "C15", Clause: "live engine == fresh engine on the same objects; no panic", Seed: seed, Scenario: fmt.Sprintf("hist:%d", idx),
+		Runs: []Run{{Job: &jj}}, Detail: map[string]string{"class": f.class}}
+	res, v := runReplay(rep)
+	if v.Infra != "" || !v.Violated {
+		return nil
+	}
+	g := &c15Finding{class: f.class, step: 0}
+	if res[0].Trace != nil {
+		if gg := c15Oracle(sub, res[0].Trace); gg != nil {
+			g = gg
+		}
+	}
+	var ops []string
+	for k := range sub {
+		ops = append(ops, opDesc(&sub[k]))
+	}
+	last := "none"
+	if g.step >= 0 && res[0].Trace != nil && g.step < len(res[0].Trace.Events) {
+		last = lastMutation(sub, res[0].Trace.Events[g.step].Step)
+	}
+	rep.Note = fmt.Sprintf("[%s] %s | minimised history (%d steps): %s", f.class, v.Desc, len(sub), strings.Join(ops, "; "))
+	rep.Observed = v.Digests
+	rep.Detail["last_mutation"] = last
+	rep.Sig = "c15:" + f.class + ":" + strings.NewReplacer(" ", "").Replace(last)
+	return rep
 }
